@@ -15,9 +15,9 @@ def namesSeparated (s : SchemaSet) : Bool :=
     | _ => none
   fields.all fun (k, n) => (fields.filter (fun x => x.1 == k && x.2 == n)).length == 1
 
-partial def genWF (seed : Nat) (cyclic small : Bool) (tries : Nat) : SchemaSet × Nat :=
-  let s := Gen.run (seed * 1000 + tries) cyclic small
-  if namesSeparated s || tries > 50 then (s, tries) else genWF seed cyclic small (tries + 1)
+partial def genWF (seed : Nat) (cyclic small : Bool) (tries : Nat) (wsdl : Bool := false) : SchemaSet × Nat :=
+  let s := if wsdl then Gen.runWsdl (seed * 1000 + tries) small else Gen.run (seed * 1000 + tries) cyclic small
+  if namesSeparated s || tries > 50 then (s, tries) else genWF seed cyclic small (tries + 1) wsdl
 
 def features (s : SchemaSet) : List String :=
   let comps := s.files.flatMap (·.comps)
@@ -27,25 +27,35 @@ def features (s : SchemaSet) : List String :=
     | _ => false
   let selfImport := s.files.zipIdx.any fun (f, i) => f.imports.contains i
   let cyc := s.files.zipIdx.any fun (f, i) => f.imports.any fun j => j > i
-  [s!"ns={s.uris.length}", s!"comps={comps.length}"] ++ (if hasExt then ["ext"] else []) ++
+  [s!"ns={s.uris.length}", s!"comps={comps.length}"] ++
+  (match s.wsdl with
+   | some w => [s!"ops={w.ops.length}"] ++ (if w.ops.any (·.output.isNone) then ["oneway"] else []) ++
+       (if w.ops.any (fun o => !o.input.headers.isEmpty) then ["headers"] else []) ++
+       (if w.ops.any (fun o => o.input.bodyParts.isNone) then ["implicitbody"] else [])
+   | none => []) ++ (if hasExt then ["ext"] else []) ++
   (if selfImport then ["selfimport"] else []) ++ (if cyc then ["cycle"] else []) ++
   (if (Ref.reachable s).length < s.files.length then ["unreachable"] else [])
 
-def writeCase (root : String) (idx : Nat) (seed : Nat) (cyclic small : Bool) : IO Unit := do
-  let (s, tries) := genWF seed cyclic small 0
+def writeCase (root : String) (idx : Nat) (seed : Nat) (cyclic small : Bool) (wsdl : Bool := false) : IO Unit := do
+  let (s, tries) := genWF seed cyclic small 0 wsdl
   let dir := s!"{root}/c{idx}"
   IO.FS.createDirAll s!"{dir}/in"
-  for f in s.files do
-    IO.FS.writeFile s!"{dir}/in/{f.fileName}" (renderFile s f)
-  let startName := ((s.files[s.start]?).map (·.fileName)).getD ""
+  for (f, i) in s.files.zipIdx do
+    match s.wsdl with
+    | some w => if i == w.schemaFile then IO.FS.writeFile s!"{dir}/in/{w.fileName}" (renderWsdl s w)
+                else IO.FS.writeFile s!"{dir}/in/{f.fileName}" (renderFile s f)
+    | none => IO.FS.writeFile s!"{dir}/in/{f.fileName}" (renderFile s f)
+  let startName := match s.wsdl with
+    | some w => w.fileName
+    | none => ((s.files[s.start]?).map (fun (f : SchemaFile) => f.fileName)).getD ""
   IO.FS.writeFile s!"{dir}/meta.txt" (s!"start={startName}\nseed={seed}\ntries={tries}\nfeatures={" ".intercalate (features s)}\n" ++
     String.join (s.uris.map (fun u => s!"uri={u}\n")) ++
     String.join ((Ref.reachable s).map (fun i => s!"reachable={((s.files[i]?).map (·.fileName)).getD ""}\n")))
-  IO.FS.writeFile s!"{dir}/ref.obs" (String.join ((Ref.structLines s).map (· ++ "\n")))
+  IO.FS.writeFile s!"{dir}/ref.obs" (String.join ((Ref.structLines s ++ Ref.wsdlLines s).map (· ++ "\n")))
 
-def main (seed count : Nat) (root : String) (cyclic : Bool := false) (small : Bool := false) : IO UInt32 := do
+def main (seed count : Nat) (root : String) (cyclic : Bool := false) (small : Bool := false) (wsdl : Bool := false) : IO UInt32 := do
   for i in [0:count] do
-    writeCase root i (seed + i) cyclic small
+    writeCase root i (seed + i) cyclic small wsdl
   return 0
 
 end ZeepVerif.Driver.SpecGen
